@@ -238,6 +238,14 @@ func GenQueries(g *Gen, n int) []Query {
 				x = append(Name{}, g.Zones[r.Intn(len(g.Zones))]...)
 			}
 			k := 1 + r.Intn(3)
+			if r.Chance(1, 4) {
+				// ten and more labels below the zone or name whose map / wildcard applies
+				k = 9 + r.Intn(6)
+				for i := 0; i < k && len(x.Pack()) < 230; i++ {
+					x = x.Child(string(rune('a' + r.Intn(26))))
+				}
+				return x, "verydeep"
+			}
 			for i := 0; i < k; i++ {
 				x = x.Child(g.label())
 			}
